@@ -5,13 +5,14 @@ HARNESS_FLAGS = ("-DC14_WRAP -Wl,--wrap=jpeg_get_small -Wl,--wrap=jpeg_free_smal
                  "-Wl,--wrap=jpeg_mem_available -Wl,--wrap=malloc -Wl,--wrap=free")
 RULE = ("the executor is linked with --wrap for jpeg_get_small/large, jpeg_free_small/large, jpeg_mem_available, malloc and free, so every "
         "allocation the library makes during an API call is counted, can be made to fail, and is tracked until it is freed.  afail: a "
-        "catalogue of 25 scenarios (tj3Init, tj3Compress8/12/16 lossy, lossless, progressive, arithmetic, optimised, with restarts; "
+        "catalogue of 27 scenarios (tj3Init, tj3Compress8/12/16 lossy, lossless, progressive, arithmetic, optimised, with restarts; "
         "tj3DecompressHeader + tj3Decompress8/12/16, tj3DecompressToYUV8, scaled with merged upsampling; tj3Transform plain, from "
         "progressive, to progressive, optimised; tj3Destroy; and, on images whose JPEG outgrows the initial destination buffer so that it "
         "is re-allocated while armed: tj3EncodeYUV8 + tj3CompressFromYUV8, tj3EncodeYUVPlanes8 + tj3CompressFromYUVPlanes8, tj3Compress8 "
         "into a re-used buffer, tj3DecompressToYUVPlanes8 + tj3DecodeYUVPlanes8, scaled tj3DecompressToYUV8 + tj3DecodeYUV8, "
         "tj3SetICCProfile + tj3GetICCProfile, tj3Transform with two transforms, tj3SaveImage8 + tj3LoadImage8, the legacy "
-        "tjCompress2 / tjDecompress2 / tjDecompressToYUV2 / tjCompressFromYUV) x the k-th allocation failing for every k up to beyond the number of "
+        "tjCompress2 / tjDecompress2 / tjDecompressToYUV2 / tjCompressFromYUV; and call sequences on one instance over images with and "
+        "without an ICC profile: header reads, decompressions, transformations, profile collection, TJPARAM_SAVEMARKERS changes) x the k-th allocation failing for every k up to beyond the number of "
         "allocations (pairs k1,k2 in the thorough tier): the call must return (error or success), ASan/UBSan must stay silent, and after "
         "the handles are destroyed and returned buffers freed no block obtained during the calls may remain.  limit: TJPARAM_MAXPIXELS "
         "at, below and above the image area; TJPARAM_SCANLIMIT around the 10 scans of a progressive image for decompression and "
@@ -55,6 +56,11 @@ def gen_ops(rng, tier):
             for _ in range(150):
                 k1 = rng.randint(1, 110); k2 = k1 + rng.randint(1, 30)
                 ops.append("afail %d %d %d %d" % (scen, rng.randrange(1 << 20), k1, k2))
+    # call sequences on one instance over images with and without an ICC profile (25: header, header; 26: seeded mixes of header reads,
+    # decompressions, transformations, profile collection and TJPARAM_SAVEMARKERS changes), without and with allocation failures
+    for scen in (25, 26):
+        for i in range(200 if big else 40):
+            ops.append("afail %d %d %d 0" % (scen, rng.randrange(1 << 20), 0 if i % 2 == 0 else rng.randint(1, 60)))
     for (a, b) in ((40, 30), (1, 1), (33, 17), (640, 480)):
         for delta in (0, -1, 1, -a * b + 1, 1000):
             ops.append("limit 0 %d %d %d" % (a, b, delta))
